@@ -354,6 +354,7 @@ theorem owned_step (cfg : Cfg) (hp : cfg.recheckPub = true) (hs : cfg.recheckSub
   cases a with
   | join s r => exact owned_upd ho s _ (fun h => h) rfl rfl
   | inCallSet s b => exact owned_upd ho s _ (fun h => h) rfl rfl
+  | setMeta s m => exact owned_upd ho s _ (fun h => h) rfl rfl
   | leaveCall s =>
     simp only [step]
     split
@@ -614,6 +615,7 @@ theorem idsOk_step (cfg : Cfg) {st : State} (hi : IdsOk st) (a : Action) : IdsOk
   cases a with
   | join s r => simp only [step]; exact idsOk_upd hi s _ (fun _ _ h => h)
   | inCallSet s b => simp only [step]; exact idsOk_upd hi s _ (fun _ _ h => h)
+  | setMeta s m => simp only [step]; exact idsOk_upd hi s _ (fun _ _ h => h)
   | leaveCall s =>
     simp only [step]
     split
@@ -1000,6 +1002,7 @@ theorem permOk_step (cfg : Cfg) (hrp : cfg.recheckPub = true)
   cases a with
   | join s r => simp only [step]; exact permOk_upd hp s _ rfl rfl rfl (fun h => h)
   | inCallSet s b => simp only [step]; exact permOk_upd hp s _ rfl rfl rfl (fun h => h)
+  | setMeta s m => simp only [step]; exact permOk_upd hp s _ rfl rfl rfl (fun h => h)
   | leaveCall s =>
     simp only [step]
     split
